@@ -148,8 +148,13 @@ fn error_multiple_documents(hint: &'static str) -> (r: Error)
 { unimplemented!() }
 
 // the snippet-attaching wrappers used by the entry points of src/lib.rs (local closures / helper); opaque: they only decorate the error
-#[verifier::external_body] fn attach_snippet(e: Error) -> Error { unimplemented!() }
-#[verifier::external_body] fn maybe_with_snippet(e: Error, input: &str, with_snippet: bool, crop_radius: usize) -> Error { unimplemented!() }
+/// where a "multiple documents" error says the next document starts, also when a snippet has been wrapped around it
+uninterp spec fn wrapped_multi_doc_loc(e: Error) -> Option<Location>;
+spec fn multi_doc_loc(e: Error) -> Option<Location> {
+    if e is MultipleDocuments { Some(e->MultipleDocuments_location) } else { wrapped_multi_doc_loc(e) }
+}
+#[verifier::external_body] fn attach_snippet(e: Error) -> (r: Error) ensures multi_doc_loc(r) == multi_doc_loc(e), { unimplemented!() }
+#[verifier::external_body] fn maybe_with_snippet(e: Error, input: &str, with_snippet: bool, crop_radius: usize) -> (r: Error) ensures multi_doc_loc(r) == multi_doc_loc(e), { unimplemented!() }
 
 // ---- the document iterator of read_with_options (src/lib.rs ReadIter): the target type is opaque ----
 #[verifier::external_body] pub struct DocVal { _p: () }       // stands for `T`
@@ -230,3 +235,8 @@ fn validate_document(v: &DocVal) -> Result<(), ValidationReport> { unimplemented
 /// `Error::ValidationError { report, locations: recorder.map }` / `Error::ValidatorError { errors, locations: recorder.map }`
 #[verifier::external_body]
 fn validation_error(report: ValidationReport, recorder: PathRec) -> (r: Error) ensures !(r is IOError), { unimplemented!() }
+/// `Cow::Borrowed("literal")` (no such call exists in the pinned tree; a change may introduce one)
+#[verifier::external_body]
+fn cowstr_of_literal<'b>(s: &'static str) -> (r: CowStr<'b>)
+    ensures r@ == s@, r.byte_len() == s.spec_bytes().len(),
+{ unimplemented!() }
